@@ -7,26 +7,34 @@ FACTS = os.path.join(CACHE, 'facts')
 
 
 def strip_generics(s):
-    """remove every `::<...>` group (balanced) from a def path"""
+    """Normalise a def path: remove generic argument lists (`::<..>` and `Type<..>`), keep `<impl ..>` and
+    `<T as Trait>` wrappers (normalising inside them)."""
     out = []
     i = 0
     n = len(s)
     while i < n:
-        if s.startswith('::<', i):
-            depth = 0
-            j = i + 2
-            while j < n:
-                c = s[j]
-                if c == '<':
-                    depth += 1
-                elif c == '>' and s[j - 1] != '-':
-                    depth -= 1
-                    if depth == 0:
-                        break
-                j += 1
-            i = j + 1
-            continue
-        out.append(s[i])
+        c = s[i]
+        if c == '<':
+            prev = s[i - 1] if i > 0 else ''
+            is_generic = (prev.isalnum() or prev == '_' or prev == ':') and not s.startswith('<impl ', i)
+            if is_generic:
+                depth = 0
+                j = i
+                while j < n:
+                    if s[j] == '<':
+                        depth += 1
+                    elif s[j] == '>' and s[j - 1] != '-':
+                        depth -= 1
+                        if depth == 0:
+                            break
+                    j += 1
+                # drop a preceding `::` of a turbofish
+                if len(out) >= 2 and out[-1] == ':' and out[-2] == ':':
+                    out.pop()
+                    out.pop()
+                i = j + 1
+                continue
+        out.append(c)
         i += 1
     return ''.join(out)
 
